@@ -373,6 +373,17 @@ def classify(ctx, heap, f, node, kind, target):
             if later is not None:
                 return "FINDING", ("published before it is complete: stored at line %d and then modified by `%s` at line %d"
                                    % (node.lineno, ast.unparse(later)[:50], later.lineno))
+            # a table that lives on the CLASS is shared by all instances: what is stored must be determined by the key alone, so
+            # whatever per-instance state the value is computed from has to be pinned down by the key as well
+            shared_tbl = _class_level_container(heap, f, place) if root == "self" and f.cls is not None else None
+            if shared_tbl:
+                v_attrs = _self_attrs(f, node.value) - {place.value.attr if isinstance(place.value, ast.Attribute) else None}
+                k_attrs = _self_attrs(f, place.slice)
+                ident = _identity_attrs(ctx, f.cls)
+                if v_attrs - k_attrs and not (k_attrs & ident):
+                    return "FINDING", ("memo on the class-level table %s keyed by %s, but the value is computed from self.%s: two instances with "
+                                       "equal keys (e.g. two regional locales of one language) get whichever value was stored first"
+                                       % (shared_tbl, sorted(k_attrs) or "no instance state", ", self.".join(sorted(v_attrs - k_attrs))))
             return "keyed-memo", "if key not in container: container[key] = value (value determined by the key)"
         used = val_names & dep
         if used:
@@ -396,6 +407,55 @@ def classify(ctx, heap, f, node, kind, target):
                 return "keyed-memo", "single writer of the caches; every caller tests membership of the same (settings hash, locale) key first"
     # registry insert: registry_dict[key] = creator(...) under `if key not in registry_dict`
     return "FINDING", "write to process-wide state that is neither construction, a memo idiom nor lock-protected"
+
+
+def _self_attrs(f, e, depth=0, seen=None):
+    """attributes of self that expression e is computed from (through the locals of f, flow-insensitively)"""
+    seen = seen if seen is not None else set()
+    out = set()
+    for n in ast.walk(e):
+        if isinstance(n, ast.Attribute) and isinstance(n.value, ast.Name) and n.value.id == "self" and isinstance(n.ctx, ast.Load):
+            out.add(n.attr)
+        elif isinstance(n, ast.Name) and isinstance(n.ctx, ast.Load) and n.id not in seen and n.id != "self" and depth < 6:
+            seen.add(n.id)
+            for st in iter_own_nodes(f.node):
+                if isinstance(st, (ast.Assign, ast.AugAssign)):
+                    tgs = st.targets if isinstance(st, ast.Assign) else [st.target]
+                    flat = [x for t in tgs for x in (t.elts if isinstance(t, (ast.Tuple, ast.List)) else [t])]
+                    if any(isinstance(x, ast.Name) and x.id == n.id for x in flat):
+                        out |= _self_attrs(f, st.value, depth + 1, seen)
+                    # filled in place: name[...] = v / name.method(v)
+                    if any(isinstance(t, ast.Subscript) and _root_name(t) == n.id for t in tgs):
+                        out |= _self_attrs(f, st.value, depth + 1, seen)
+                elif isinstance(st, ast.For) and any(isinstance(x, ast.Name) and x.id == n.id for x in ast.walk(st.target)):
+                    out |= _self_attrs(f, st.iter, depth + 1, seen)
+    return out
+
+
+def _identity_attrs(ctx, cls):
+    """attributes that name the instance: stored in __init__ straight from a constructor parameter under which the creator also files the
+    new object (`table[k] = Cls(k, ..)`), e.g. Locale.shortname via LocaleDataLoader._loaded_locales[shortname] = Locale(shortname, ..)"""
+    init = cls.find_method("__init__")
+    if init is None:
+        return set()
+    ps = init.params()
+    stored = {}
+    for n in iter_own_nodes(init.node):
+        if isinstance(n, ast.Assign) and len(n.targets) == 1 and isinstance(n.targets[0], ast.Attribute) and isinstance(n.targets[0].value, ast.Name) \
+                and n.targets[0].value.id == "self" and isinstance(n.value, ast.Name) and n.value.id in ps:
+            stored[n.value.id] = n.targets[0].attr
+    out = set()
+    for g in ctx.ix.funcs.values():
+        ctor = [c for c in iter_own_nodes(g.node) if isinstance(c, ast.Call) and ast.unparse(c.func).split(".")[-1] == cls.name and c.args]
+        if not ctor:
+            continue
+        for c in ctor:
+            k = ast.unparse(c.args[0])
+            for st in iter_own_nodes(g.node):
+                if isinstance(st, ast.Assign) and isinstance(st.targets[0], ast.Subscript) and ast.unparse(st.targets[0].slice) == k and len(ps) > 1:
+                    if ps[1] in stored:
+                        out.add(stored[ps[1]])
+    return out
 
 
 def _class_level_container(heap, f, tgt):
